@@ -19,6 +19,8 @@ func c11(c *Check) {
 	c.Rule("C11/conversions", "frozen table: each of the four conversion functions performs exactly its escrow/mint (burn/unescrow, transfer/mint, escrow/release/burn) effects with the message's amount and parties, propagates every error, and reaches success only after the post-call balance equals the pre-call balance ± the amount on the side it moves", 60)
 	n := c.Frozen("C11")
 	c.Extra["frozen_entries"] = n
+	c.Rule("C11/no-failure-reported-as-success", "on the failure edge of one error no function returns another error value that is provably nil at that point (a wrapped stale `err` instead of the error just tested): a failed step is never reported as success", 1)
+	noFailureAsSuccess(c, "C11/no-failure-reported-as-success", fnsInPackages(c, "/x/aggregate"))
 	c.Rule("C11/approval-scan-complete", "monitorApprovalEvent accepts a call result only after looking at every log: an Approval event behind another event is still refused", 1)
 	allLogsProcessed(c, "C11/approval-scan-complete", agK+"Keeper.monitorApprovalEvent")
 
